@@ -1,1 +1,5 @@
 pub enum Poll<T> { Ready(T), Pending }
+impl<T> Poll<T> {
+    pub fn is_ready(&self) -> (r: bool) ensures r == (*self is Ready) { matches!(self, Poll::Ready(_)) }
+    pub fn is_pending(&self) -> (r: bool) ensures r == (*self is Pending) { matches!(self, Poll::Pending) }
+}
